@@ -3,7 +3,7 @@
 d=$(cd "$1" && pwd); shift
 git -C /repo apply "$d/patch.diff" || { echo "patch does not apply"; exit 9; }
 for p in "$@"; do
-  /verif/check $p --no-probe > /tmp/seed_run.out 2>&1; rc=$?
+  KV_EVIDENCE_DIR=/tmp/seed_ev /verif/check $p --no-probe > /tmp/seed_run.out 2>&1; rc=$?
   echo "seed $(basename $d) check $p -> rc=$rc : $(grep -E 'VIOLATION|UNDECIDED|^OK' /tmp/seed_run.out | head -2 | cut -c1-220 | tr '\n' ' ')"
   grep "failed obligation" /tmp/seed_run.out | head -3 | cut -c1-260
 done
